@@ -1,9 +1,16 @@
 package connsim
 
 import (
+	"runtime"
 	"testing"
 
 	"verif/sim/simkit"
 )
 
-func TestC32(t *testing.T) { simkit.Main(t, SpecC32()) }
+func TestC32(t *testing.T) {
+	// One runnable goroutine at a time is the design of this engine (the driver
+	// hands the processor to the endpoint goroutines through synctest.Wait);
+	// a single P makes those hand-offs in-thread (6x faster than futex wake-ups).
+	runtime.GOMAXPROCS(1)
+	simkit.Main(t, SpecC32())
+}
